@@ -21,7 +21,7 @@ func C02(c *Ctx) {
 	r.Rule("C02/R1", "announcements the round depends on are compared across participants; no unguarded last-writer-wins slot", 3)
 	r.Rule("C02/R2", "saved share, announced polynomial and announced key come from one certified instance", 6)
 	r.Rule("C02/R3", "share saved only when certified; announcement xor error", 6)
-	r.Rule("C02/R4", "key generation threshold is the proposal's", 2)
+	r.Rule("C02/R4", "key generation threshold is the proposal's", 3)
 	ms := c.Machines("C02/A1")
 	if len(ms) != 3 {
 		return
@@ -142,6 +142,7 @@ func C02(c *Ctx) {
 			"an error return at "+bad+" is reachable after the announcement was appended: the node would post both, every FSM accepts the confirmation and rejects the error, and the round becomes signing-ready while this machine holds no share")
 	}
 	// ---- R4
+	thresholdWriters(c, "C02/R4")
 	checkArgs(c, []argSpec{
 		{"C02/R4", "dkg.InitDKGInstance:threshold", [3]string{"dkg", "DKG", "InitDKGInstance"}, "github.com/corestario/kyber/share/dkg/pedersen.NewDistKeyGenerator", 3, `^d\.Threshold$`, "the polynomial degree is the configured threshold - 1", "threshold rewritten"},
 		{"C02/R4", "dkg.InitDKGInstance:participants", [3]string{"dkg", "DKG", "InitDKGInstance"}, "github.com/corestario/kyber/share/dkg/pedersen.NewDistKeyGenerator", 2, `^d\.pubKeys\.GetPKs\(\)$`, "all registered participants take part, in participant-id order", "participant list changed"},
